@@ -468,9 +468,11 @@ class Typestate(DefiniteAssignment):
 
     MARK = "$clean"
 
-    def __init__(self, fn, classify, implications=()):
+    def __init__(self, fn, classify, implications=(), probe=None):
         super().__init__(fn, implications)
         self.classify = classify
+        self.probe = probe
+        self.probed: list = []  # (stmt, world) for statements selected by probe(stmt), before they execute
         self.exit_worlds: list = []  # (node or None, world)
         self.locals = set()  # no unbound-name reporting in this mode
 
@@ -482,6 +484,9 @@ class Typestate(DefiniteAssignment):
         return self.exit_worlds
 
     def stmt(self, s, worlds):
+        if self.probe is not None and not isinstance(s, (ast.If, ast.For, ast.While, ast.With, ast.Try)) and self.probe(s):
+            for w in worlds:
+                self.probed.append((s, w))
         if isinstance(s, ast.Return):
             k = self.classify(s)
             if k == "dirty":
